@@ -261,10 +261,12 @@ See also: guarded, rational
         v = self._value
         if Fixed.precision == 0:  # integer arithmetic
             return str(v)
+        sign = '-' if v < 0 else ''
+        v = abs(v)                 # format the magnitude; // and % floor toward -infinity
         if self.display < self.precision:
             v += self.__scaledr    # round
             v //= self.__scaledd   # reduce display precision
-        return self.__dfmt % (v//self.__scaled, v%self.__scaled)
+        return sign + self.__dfmt % (v//self.__scaled, v%self.__scaled)
 
     @classmethod
     def report(cls):
